@@ -5,7 +5,9 @@ mod engines;
 mod genr;
 mod model;
 mod oracles;
+mod oracles_restore;
 mod oracles_worker;
+mod restore_ref;
 mod batch;
 mod run;
 mod shrink;
@@ -41,6 +43,8 @@ fn main() {
                     verbose,
                     tag: "one".into(),
                     force_journal: None,
+                    sweep_one_in: None,
+                    sweep_interior: 0,
                 },
             );
             println!(
@@ -74,6 +78,8 @@ fn main() {
                         verbose: false,
                         tag: "many".into(),
                         force_journal: None,
+                        sweep_one_in: None,
+                        sweep_interior: 0,
                     },
                 );
                 steps += r.steps + r.suffix_steps;
@@ -170,11 +176,11 @@ fn main() {
             let seed: u64 = arg_value(&args, "--seed").and_then(|s| s.parse().ok()).unwrap();
             let profile = arg_value(&args, "--profile").and_then(|s| Profile::parse(&s)).unwrap();
             let target = arg_value(&args, "--target").unwrap();
-            let r = run::run_seed(seed, profile, &run::RunOptions { verbose: false, tag: "shrink".into(), force_journal: None });
+            let r = run::run_seed(seed, profile, &run::RunOptions { verbose: false, tag: "shrink".into(), force_journal: None, sweep_one_in: None, sweep_interior: 0 });
             let plan = r.plan.clone().unwrap();
-            let (actions, stats) = shrink::shrink(&plan, seed, &r.trace, &target, "shrink", 2000);
+            let (actions, stats) = shrink::shrink(&plan, seed, &r.trace, &target, "shrink", 2000, (None, 0));
             eprintln!("shrunk {} -> {} actions in {} replays", stats.from, stats.to, stats.replays);
-            let rr = run::replay_actions(&plan, seed, &actions, &run::RunOptions { verbose: false, tag: "shrink".into(), force_journal: None }, None);
+            let rr = run::replay_actions(&plan, seed, &actions, &run::RunOptions { verbose: false, tag: "shrink".into(), force_journal: None, sweep_one_in: None, sweep_interior: 0 }, None);
             let msg = rr.findings.iter().find(|f| format!("{} {}", f.property, f.signature()) == target).map(|f| f.message.clone()).unwrap_or_default();
             let file = run::ReplayFile {
                 engine: "cluster".into(),
@@ -186,6 +192,8 @@ fn main() {
                 message: msg,
                 log_hash: format!("{:016x}", rr.log_hash),
                 minimised: true,
+                sweep_one_in: None,
+                sweep_interior: 0,
             };
             let out = arg_value(&args, "--out").unwrap_or_else(|| "/verif/replays/manual.json".into());
             if let Some(p) = std::path::Path::new(&out).parent() { let _ = std::fs::create_dir_all(p); }
